@@ -173,7 +173,7 @@ def run(v) -> None:
         for j in range(0, len(allc), per * 6):
             add_spec(n, c, nbits, 1 + (j // (per * 6)) % 3, "identity" if (j // per) % 2 else "random", allc[j:j + per * 6])
     # random larger configurations at every depth
-    for _ in range(40 if quick else 400):
+    for _ in range(40 if quick else 1500):
         nbits = rng.choice([1, 2, 4, 8, 32])
         c = rng.choice(DEPTH_CH[nbits])
         n = rng.randrange(12, 64)
